@@ -116,6 +116,18 @@ def run(ctx):
                "createSectionType", INF + ".SchemaType",
                "new type shares the schema's type table and is registered")
 
+    for q, ref in ((INF + ".BaseKeyInfo.prepare_raw_defaults",
+                    "prepare_raw_defaults"),
+                   (INF + ".KeyInfo.computedefault", "key_computedefault"),
+                   (INF + ".MultiKeyInfo.computedefault",
+                    "multikey_computedefault"),
+                   (INF + ".BaseKeyInfo.convert_default_key",
+                    "convert_default_key")):
+        crosscheck(ctx, "C11.R2", q, RI, ref, q.rsplit(".", 1)[0],
+                   "defaults are recomputed from the keys as written in the "
+                   "schema (raw defaults kept once), under the given key "
+                   "type")
+
     # ------------------------------------------------------------------ R3
     crosscheck(ctx, "C11.R3", BP + ".get_datatype", RS, "get_datatype", BP,
                "explicit attribute > base > default")
